@@ -358,6 +358,10 @@ type c17Unit struct {
 }
 type c17PCO struct {
 	Units []c17Unit `json:"units"`
+	// Proto: configuration protocol (bits 3..1 of the first octet) of the encoding handed to UnMarshal. Only 000
+	// (PPP) is defined; "all other values shall be interpreted as PPP in this version of the protocol" (TS 24.008
+	// 10.5.6.3), so 81..87 in front of the same units are encodings of the same list.
+	Proto int `json:"configuration_protocol,omitempty"`
 }
 
 func genC17PCO(t *rapid.T) c17PCO {
@@ -366,6 +370,9 @@ func genC17PCO(t *rapid.T) c17PCO {
 	for i := 0; i < n; i++ {
 		l := rapid.OneOf(rapid.Just(0), rapid.Just(0), rapid.IntRange(1, 4), rapid.IntRange(1, 20), rapid.Just(255), rapid.IntRange(0, 255)).Draw(t, fmt.Sprintf("len%d", i))
 		c.Units = append(c.Units, c17Unit{ID: rapid.Uint16().Draw(t, fmt.Sprintf("id%d", i)), Contents: drawBytes(t, l, fmt.Sprintf("c%d", i))})
+	}
+	if rapid.IntRange(0, 3).Draw(t, "other_protocol") == 1 {
+		c.Proto = rapid.IntRange(1, 7).Draw(t, "configuration_protocol")
 	}
 	return c
 }
@@ -425,8 +432,13 @@ func c17PCOOracle(c c17PCO) ev.Verdict {
 		return v
 	}
 	q := nasConvert.NewProtocolConfigurationOptions()
-	if err := q.UnMarshal(append([]byte{}, want...)); err != nil {
-		v.Key, v.Err = "PCO.UnMarshal:error", fmt.Errorf("UnMarshal(%x): %v", want, err)
+	in := append([]byte{}, want...)
+	if c.Proto != 0 && len(in) > 0 {
+		in[0] = in[0]&0xf8 | byte(c.Proto&7)
+		v.Classes = append(v.Classes, "pco/configuration-protocol!=000")
+	}
+	if err := q.UnMarshal(in); err != nil {
+		v.Key, v.Err = "PCO.UnMarshal:error", fmt.Errorf("UnMarshal(%x): %v", in, err)
 		return v
 	}
 	if err := samePCO(q.ProtocolOrContainerList, c.Units); err != nil {
